@@ -233,8 +233,8 @@ func c11CLI(c *core.Ctx, idx int) {
 	r := core.NewRand(c.P.Seed, "C11cli", idx)
 	nFiles := c.P.Pick(120, 600)
 	type f struct {
-		path   string
-		src    []byte
+		path    string
+		src     []byte
 		printed []byte // what the printer writes for this file when run alone
 		dump    string
 	}
@@ -340,9 +340,9 @@ func init() {
 			"the race detector only reports races on interleavings that actually occur; the stage-event log of the uninstrumented-for-race main run shows how diverse they were",
 			"pipeline results are compared through hashes of the printed text, two dumps, the visitor-method sequence and the sorted resolved names, plus the literal error list",
 		},
-		Plan:  func(p core.Params) int { return p.Pick(1600, 150000) },
-		Twins: []string{"C11R"},
-		Run:   func(c *core.Ctx, idx int) { c11Batch(c, "C11", idx, true) },
+		Plan:          func(p core.Params) int { return p.Pick(1600, 150000) },
+		Twins:         []string{"C11R"},
+		Run:           func(c *core.Ctx, idx int) { c11Batch(c, "C11", idx, true) },
 		MinNonTrivial: 50,
 	})
 	core.Register(&core.Check{
